@@ -2,6 +2,7 @@ package core
 
 import (
 	"fmt"
+	"math/bits"
 	"math/rand/v2"
 )
 
@@ -31,8 +32,29 @@ const (
 	ModeLenient = 2 // read the tape where it fits, otherwise fall back to the PRNG
 )
 
+// srng is a splitmix64 stream. It is used instead of math/rand because
+// decisions are also drawn in task context (map-order and stripe seams): all
+// of its methods are //go:norace so that the race flavour does not see the
+// simulator's own state.
+type srng struct{ s uint64 }
+
+//go:norace
+func (r *srng) next() uint64 {
+	r.s += 0x9e3779b97f4a7c15
+	z := r.s
+	z = (z ^ (z >> 30)) * 0xbf58476d1ce4e5b9
+	z = (z ^ (z >> 27)) * 0x94d049bb133111eb
+	return z ^ (z >> 31)
+}
+
+//go:norace
+func (r *srng) intn(n int) int {
+	hi, _ := bits.Mul64(r.next(), uint64(n))
+	return int(hi)
+}
+
 type Decider struct {
-	rng      *rand.Rand
+	rng      srng
 	Mode     int
 	Tape     []TapeEntry // recorded (ModeRandom/ModeLenient) decisions
 	In       []TapeEntry // tape being replayed
@@ -59,7 +81,9 @@ func NewRand(seed, stream uint64) *rand.Rand {
 }
 
 func NewDecider(seed uint64) *Decider {
-	return &Decider{rng: NewRand(seed, 2)}
+	d := &Decider{rng: srng{s: SplitMix(seed ^ 0x5bd1e9955bd1e995)}}
+	d.Tape = make([]TapeEntry, 0, 4096)
+	return d
 }
 
 func NewReplayDecider(seed uint64, in []TapeEntry, strict bool) *Decider {
@@ -73,6 +97,7 @@ func NewReplayDecider(seed uint64, in []TapeEntry, strict bool) *Decider {
 	return d
 }
 
+//go:norace
 func (d *Decider) record(e TapeEntry) {
 	if !d.NoRecord {
 		d.Tape = append(d.Tape, e)
@@ -80,14 +105,20 @@ func (d *Decider) record(e TapeEntry) {
 }
 
 // Choose returns a value in [0,n). n must be >= 1.
+//
+//go:norace
 func (d *Decider) Choose(n int, label byte) int {
 	return d.ChooseOrd(n, label, nil)
 }
 
 // Intn is Choose with the generic label.
+//
+//go:norace
 func (d *Decider) Intn(n int) int { return d.Choose(n, LOther) }
 
 // Float returns a decision in [0,1) with 1/1024 resolution.
+//
+//go:norace
 func (d *Decider) Prob(p float64, label byte) bool {
 	if p <= 0 {
 		return false
@@ -101,6 +132,8 @@ func (d *Decider) Prob(p float64, label byte) bool {
 // ChooseOrd is Choose for scheduling decisions: ords[i] is the stable
 // identity of alternative i, so that a lenient replay can follow the same
 // task even when the runnable set differs.
+//
+//go:norace
 func (d *Decider) ChooseOrd(n int, label byte, ords []int) int {
 	if n <= 0 {
 		panic("core: Choose(0)")
@@ -154,7 +187,7 @@ func (d *Decider) ChooseOrd(n int, label byte, ords []int) int {
 	}
 	v := 0
 	if n > 1 {
-		v = d.rng.IntN(n)
+		v = d.rng.intn(n)
 	}
 	e := TapeEntry{L: label, N: n, V: v}
 	if ords != nil {
@@ -164,6 +197,7 @@ func (d *Decider) ChooseOrd(n int, label byte, ords []int) int {
 	return v
 }
 
+//go:norace
 func (d *Decider) diverge(msg string) {
 	if d.Diverged == "" {
 		d.Diverged = msg
